@@ -2,7 +2,7 @@
 # ./seedtest.sh <patch.diff> <tier> <Cxx> [<Cxx> ...]
 # Applies a seeded change to /repo, runs the named checks, and ALWAYS restores /repo.
 # Prints one line per check: <id> <tier> exit=<code> violations=<first VIOLATION class or ->.
-PATCH="$1"; TIER="$2"; shift 2
+PATCH=$(readlink -f "$1"); TIER="$2"; shift 2
 cd "$(dirname "$0")" || exit 2
 if [ -n "$(git -C /repo status --porcelain)" ]; then echo "/repo is not clean"; exit 2; fi
 git -C /repo apply "$PATCH" || { echo "patch does not apply"; exit 2; }
